@@ -171,7 +171,9 @@ func newRigEnv(ctx *core.Ctx, mitm, upstream, cred bool) (*hopEnv, error) {
 			cfg.Name = "fwdverif"
 			cfg.RequestModifiers = append(cfg.RequestModifiers,
 				forwarder.RequestModifierFunc(func(req *http.Request) error {
-					if req.Method != http.MethodConnect && req.URL != nil {
+					if req.Method == http.MethodConnect {
+						e.snaps.Store("connect", req.Header.Clone()) // (the cases of one environment run one after the other)
+					} else if req.URL != nil {
 						if id := idOfTarget(req.URL.Path); id != "" {
 							e.snaps.Store(id, req.Header.Clone())
 						}
